@@ -405,3 +405,38 @@ def peers_of_one_range(tier, seed):
 @replayer('C19', 'peers-of-one-range')
 def _replay_range(f):
     return range_case() is None
+
+
+# ---------------------------------------------------------------------------------------------------------------------
+# the "counter" of a JSON event: what one API process reads must not depend on which other encoders exist in the process
+def counter_case():
+    from bounded import c13
+    from exabgp.bgp.message import Message
+    from exabgp.reactor.api.response import Response
+
+    nb, neg = c13.session()
+    body = bytes.fromhex('0000' '0015' '40010100' '400200' '400304c0000201' '40050400000064' '18cb0071')
+    inp = {'scenario': 'one UPDATE rendered by a v4 text encoder and two JSON encoders (three API processes on one neighbor)', 'body': body.hex()}
+    try:
+        m = Message.unpack(2, memoryview(body), neg)
+        encs = [Response.V4.Text('4.0.1'), Response.JSON('6.0.0'), Response.JSON('6.0.0')]
+        outs = [e.update(nb, 'receive', m.data, b'', b'', neg) for e in encs]
+        counters = [json.loads(o)['counter'] for o in outs[1:]]
+        outs2 = [e.update(nb, 'receive', m.data, b'', b'', neg) for e in encs]
+        counters2 = [json.loads(o)['counter'] for o in outs2[1:]]
+    except Exception as e:  # noqa
+        return {'what': f'rendering raised {type(e).__name__}: {str(e)[:160]}', 'input': inp}
+    if counters != [1, 1] or counters2 != [2, 2]:
+        return {'what': f'the counters of the first and second UPDATE read by two JSON processes are {counters} and {counters2}: a fresh process with one JSON helper writes 1 then 2 -- the other encoders count in the same counter', 'input': inp}
+    return None
+
+
+@bounded('C19', 'event-counter-per-encoder')
+def event_counter(tier, seed):
+    f = counter_case()
+    return {'evaluations': 1, 'distinct_nontrivial': 1, 'bound': 'one UPDATE twice through three real encoders (v4 text, JSON, JSON) of one neighbor', 'rule': 'one case', 'samples': [{'encoders': ['text4', 'json6', 'json6']}], 'failures': [f] if f else []}
+
+
+@replayer('C19', 'event-counter-per-encoder')
+def _replay_counter(f):
+    return counter_case() is None
